@@ -13,8 +13,22 @@ from harness.props import c02
 
 PROP = "C03"
 REQUIRED_THEOREMS = [
-    "data_eq_fitted_add_residual", "weighted_residual_eq", "ofColumns_entry", "chunk_flatten",
-    "unstack_stack", "finish_unweighted",
+    "finish_unweighted",
+    "data_eq_fitted_add_residual",
+    "data_eq_fitted_add_residual_mat",
+    "weighted_residual_eq",
+    "ofColumns_entry",
+    "ofColumns_getElem_getElem",
+    "chunk_flatten",
+    "ofColumns_chunk_flatten",
+    "unstack_stack",
+    "unstack_stack_sum'",
+    "unlinked_result_shape",
+    "unlinked_result_labels_and_count_counterexample",
+    "unlinked_result_labels_and_count_partial",
+    "linked_result_label_independent",
+    "linked_result_numeric_label_independent",
+    "linked_result_label_independent_needs_injective",
 ]
 TRUSTED = [
     "hand-written model lean/GlotaranModel/C03.lean (on top of C02.lean) of OptimizationGroup.create_result_data, "
